@@ -377,16 +377,22 @@ def nameChar (inp : List Nat) : Option (Nat × List Nat) :=
       | _ => some (c, rest)
     else some (c, rest)
 
-/-- The `loop` of `try_consume_named_capture_group_name`. `orig` is `orig_input` (after `<`). -/
+/-- The `loop` of `try_consume_named_capture_group_name`. `orig` is `orig_input` (after `<`).
+Only an UNESCAPED `>` ends the name: the `c == '>'` test comes before the `\u` escape is resolved
+(an escaped `>` then fails the ID_Continue test). -/
 def nameLoop : Nat → List Nat → List Nat → List Nat → Res (Option (List Nat) × List Nat)
   | 0, _, _, _ => panicAt "fuel"
   | fuel+1, inp, acc, orig =>
-    match nameChar inp with
-    | none => .ok (none, orig)
-    | some (c, rest) =>
-      if c == 0x3E then .ok (some acc, rest)
-      else if isIdContinue c then nameLoop fuel rest (acc ++ [c]) orig
-      else .ok (none, orig)
+    match inp with
+    | [] => .ok (none, orig)
+    | c0 :: rest0 =>
+      if c0 == 0x3E then .ok (some acc, rest0)
+      else
+        match nameChar inp with
+        | none => .ok (none, orig)
+        | some (c, rest) =>
+          if isIdContinue c then nameLoop fuel rest (acc ++ [c]) orig
+          else .ok (none, orig)
 
 /-- `try_consume_named_capture_group_name` on the raw input.
 NOTE (as in the Rust code): on failure after the `<` was consumed the input is restored to just
